@@ -319,6 +319,16 @@ def check_bad_frequency(case):
             results[name] = "accepted"
         except ValueError:
             results[name] = "rejected"
+    # "... directly or when expanded over several source pulses for a chopper cascade": the cascade
+    # entry point must take the same decision (seeded/C10-s11 dropped the check there only)
+    from scippneutron.tof.chopper_cascade import Chopper
+
+    for npulses in (1, 3):
+        try:
+            Chopper.from_disk_chopper(ch, pulse_frequency=pulse, npulses=npulses)
+            results[f"Chopper.from_disk_chopper(npulses={npulses})"] = "accepted"
+        except ValueError:
+            results[f"Chopper.from_disk_chopper(npulses={npulses})"] = "rejected"
     want = "accepted" if case["kind"] == "in-tolerance" else "rejected"
     for name, r in results.items():
         if r != want:
